@@ -1,5 +1,7 @@
 #![allow(dead_code)]
 mod util;
+mod c15;
+mod c06;
 mod c02;
 mod c04;
 mod c09;
@@ -24,6 +26,8 @@ fn main() {
         "c16" => c16::main(&a),
         "rsp" => rsp::main(&a),
         "sparql" => sparql::main(&a),
+        "c06" => c06::main(&a),
+        "c15" => c15::main(&a),
         other => {
             eprintln!("unknown driver {other}");
             std::process::exit(2);
